@@ -88,6 +88,92 @@ theorem encoder_stream_roundtrip (ds : List I64) (rest : Bytes) (h : ds.length <
   have := rle_roundtrip ds 0 rest (by simpa using h)
   simpa [rleEnc] using this
 
+/-! ### the encoder's stream is the canonical one: every zero run maximal -/
+
+/-- the canonical token stream of a delta list: consecutive zeros are one run, however long -/
+def canonAux : Nat → List I64 → List Tok
+  | zc, [] => if zc > 0 then [.run (zc - 1)] else []
+  | zc, d :: ds =>
+    if d = 0#64 then canonAux (zc + 1) ds
+    else (if zc > 0 then [.run (zc - 1)] else []) ++ .lit d :: canonAux 0 ds
+
+def canon (ds : List I64) : List Tok := canonAux 0 ds
+
+/-- no literal is zero and no zero run is directly followed by another one -/
+def Canonical : List Tok → Prop
+  | [] => True
+  | [.lit d] => d ≠ 0#64
+  | [.run _] => True
+  | .lit d :: t :: r => d ≠ 0#64 ∧ Canonical (t :: r)
+  | .run _ :: .run _ :: _ => False
+  | .run _ :: .lit d :: r => Canonical (.lit d :: r)
+
+theorem encoder_emits_canon : ∀ (ds : List I64) (zc : Nat), rleEncAux zc ds = encToks (canonAux zc ds) := by
+  intro ds
+  induction ds with
+  | nil => intro zc; by_cases h : zc > 0 <;> simp [rleEncAux, canonAux, encToks, encTok, h]
+  | cons d ds ih =>
+    intro zc
+    by_cases hd : d = 0#64
+    · simp [rleEncAux, canonAux, hd, ih]
+    · by_cases h : zc > 0 <;> simp [rleEncAux, canonAux, hd, h, ih, encToks, encTok, encodeValue]
+
+theorem canon_lit_head (d : I64) (hd : d ≠ 0#64) : ∀ (r : List Tok), Canonical r → Canonical (.lit d :: r)
+  | [], _ => hd
+  | _ :: _, h => ⟨hd, h⟩
+
+theorem canon_run_lit (k : Nat) (d : I64) (r : List Tok) (h : Canonical (.lit d :: r)) :
+    Canonical (.run k :: .lit d :: r) := h
+
+theorem canonAux_canonical : ∀ (ds : List I64) (zc : Nat), Canonical (canonAux zc ds) := by
+  intro ds
+  induction ds with
+  | nil => intro zc; by_cases h : zc > 0 <;> simp [canonAux, h, Canonical]
+  | cons d ds ih =>
+    intro zc
+    by_cases hd : d = 0#64
+    · simp only [canonAux, hd, if_true]; exact ih _
+    · have hl := canon_lit_head d hd _ (ih 0)
+      by_cases h : zc > 0
+      · simp only [canonAux, hd, if_false, h, if_true, List.singleton_append]
+        exact canon_run_lit _ d _ hl
+      · simp only [canonAux, hd, if_false, h, List.nil_append]
+        exact hl
+
+theorem canonAux_expand : ∀ (ds : List I64) (zc : Nat), expand (canonAux zc ds) = List.replicate zc 0#64 ++ ds := by
+  intro ds
+  induction ds with
+  | nil =>
+    intro zc
+    by_cases h : zc > 0
+    · obtain ⟨k, rfl⟩ : ∃ k, zc = k + 1 := ⟨zc - 1, by omega⟩
+      simp [canonAux, expand, expandTok]
+    · have : zc = 0 := by omega
+      simp [canonAux, expand, this]
+  | cons d ds ih =>
+    intro zc
+    by_cases hd : d = 0#64
+    · simp only [canonAux, hd, if_true, ih]
+      rw [List.replicate_succ', List.append_assoc]; rfl
+    · by_cases h : zc > 0
+      · obtain ⟨k, rfl⟩ : ∃ k, zc = k + 1 := ⟨zc - 1, by omega⟩
+        have := ih 0
+        simp only [expand] at this ⊢
+        simp [canonAux, hd, expandTok, this]
+      · have hz : zc = 0 := by omega
+        have := ih 0
+        simp only [expand] at this ⊢
+        simp [canonAux, hd, hz, expandTok, this]
+
+/-- **The delta stream `getPayload` writes is the canonical encoding**: it is the byte rendering of a
+token stream that denotes exactly the deltas, in which no literal is zero and no zero run is followed
+by another zero run (every run is maximal, also across metric boundaries). -/
+theorem encoder_is_canonical (ds : List I64) :
+    rleEnc ds = encToks (canon ds) ∧ Canonical (canon ds) ∧ expand (canon ds) = ds := by
+  refine ⟨encoder_emits_canon ds 0, canonAux_canonical ds 0, ?_⟩
+  have := canonAux_expand ds 0
+  simpa [canon] using this
+
 /-- payload layout: reference document verbatim, metric count, delta count, delta stream -/
 theorem payload_layout (ref : BDoc) (first : Row) (rows : List Row) :
     ∃ stream, payloadOf ref first rows =
